@@ -63,6 +63,11 @@ LAYOUTS = {
     "two-slave-patches-on-one-block-pair": ([(0, 0, 0), (1, 0, 0), (0, 0, 1), (1, 0, 1)],
                                             {2: {"bottom": "zeta_s", "front": "alpha_s"}, 3: {"bottom": "zeta_s", "front": "alpha_s"}, 0: {"top": "mz"}, 1: {"top": "mz"}},
                                             [("mz", "zeta_s"), ("wall_m", "alpha_s")]),
+    # the middle block's patch is the slave of one pair and the master of the next
+    "chain-of-merged-pairs": ([(0, 0, 0), (1, 0, 0), (2, 0, 0)], {0: {"right": "a"}, 1: {"left": "mid", "right": "mid"}, 2: {"left": "c"}},
+                              [("a", "mid"), ("mid", "c")]),
+    "chain-of-merged-pairs-declared-backwards": ([(0, 0, 0), (1, 0, 0), (2, 0, 0)], {0: {"right": "a"}, 1: {"left": "mid", "right": "mid"}, 2: {"left": "c"}},
+                                                 [("mid", "c"), ("a", "mid")]),
 }
 
 
@@ -96,8 +101,8 @@ CASES = [(name, "".join(map(str, o))) for name, (cells, _, _) in LAYOUTS.items()
        functions=[VL + "add", VL + "find_unique", VL + "find_duplicated", "classy_blocks.mesh:Mesh._add_vertices",
                   "classy_blocks.construct.operations.operation:Operation.get_patches_at_corner", "classy_blocks.lists.patch_list:PatchList.slave_patches",
                   "classy_blocks.items.vertex:Vertex.from_point"],
-       note="layout-bounded: 7 layouts of 2-4 lattice boxes (face, edge, corner contacts; one and two merged pairs, two slave patches "
-            "on one corner, patch names in non-alphabetical order) x every insertion order")
+       note="layout-bounded: 9 layouts of 2-4 lattice boxes (face, edge, corner contacts; one and two merged pairs, two slave patches "
+            "on one corner, patch names in non-alphabetical order, a patch that is slave of one pair and master of the next) x every insertion order")
 def connectivity(ctx):
     layout, order = ctx.case
     mesh, ops, slaves = build(layout, [int(c) for c in order])
